@@ -7,7 +7,7 @@ VERIF = os.path.dirname(HERE)
 BASE_NOTE = ("Trusted: Lean 4.33.0 kernel; axioms propext/Classical.choice/Quot.sound only (audited per run); "
              "IsoDT/Spec as the reading of the property; harness/translate.py (source -> Gen tables); the "
              "correspondence harness + compiled driver that tie the hand-written model to /repo; CPython. "
-             "Floats are not modelled (whole-second theorems; fractional behaviour only observed).")
+             "Binary64 rounding is not modelled: whole-second theorems, exact-rational theorems where stated, fractional behaviour otherwise observed to 1 us.")
 
 CLAIMED = {
     "C01": dict(
